@@ -1,5 +1,5 @@
 (* C05 — best_score / best_para are the true best of this call's rows.  Statements only. *)
-Require Import Base StopRun Converter Driver DriverObs DriverFacts StopFacts C05_proofs.
+Require Import Base StopRun Converter Driver DriverObs DriverFacts StopFacts C05_proofs C05_sim.
 
 (* for every optimizer, objective, verbosity path and prior history: best_score is never NaN, no row of
    this call is strictly better, best_value is the decoded position of the FIRST row attaining best_score
@@ -14,6 +14,15 @@ Theorem C05_verbosity_paths_agree : forall b sc p k,
   pb_pos (pbar_update_lvl1 b sc p k) = pb_pos (pbar_update_lvl0 b sc p k).
 Proof. exact lvl1_eq_lvl0. Qed.
 Print Assumptions C05_verbosity_paths_agree.
+
+(* whole runs: for every optimizer, objective, clock, prior state and call, the search with the tqdm progress bar
+   (verbosity containing "progress_bar") and the silent search end with the same rows, positions, scores, best
+   score / best value, counters, memory dictionary, objective calls and optimizer state *)
+Theorem C05_verbosity_independent : forall (OP : optimizer) sp f clk (s s1 : drv OP) (c : call),
+  search sp f clk s c = Ok s1 ->
+  exists s2, search sp f clk s (call_silent c) = Ok s2 /\ same_result s1 s2.
+Proof. exact (@verbosity_independent). Qed.
+Print Assumptions C05_verbosity_independent.
 
 Example C05_nonvacuous :
   let c := mkDcase [[10; 20; 30; 40]] 1 [[0]; [1]; [2]; [3]] [mkResult (SFin 1) None; mkResult SNaN None; mkResult (SFin 5) None; mkResult (SFin 5) None]
